@@ -131,7 +131,7 @@ def _sign(c, name):
 
 
 # ---------------------------------------------------------------------------------- (L)
-def h_local(c, o, k=1, level=None):
+def h_local(c, o, k=1, level=None, pstate=None):
     """depth-k drift set from fresh local state, through the real helpers and the real post-transform.
     Local state: flip state P before the ancestor's last digit, that digit p (after the ancestor's own processing) and the
     descendant's k further digits; the loop skeleton of _s_to_anchor (shift pass top-down, then Horner pass) is
@@ -142,6 +142,9 @@ def h_local(c, o, k=1, level=None):
     flip_ij = o in ("wu", "uw")
     pattern = H.PATTERN_FLIPPED if flip_ij else H.PATTERN
     P = [_sign(c, "Px"), _sign(c, "Py")]
+    if pstate is not None:
+        # the job covers one of the four flip states (the four jobs together cover the whole local state space)
+        c.assume(sx.And(P[0] == (-1 if pstate & 1 else 1), P[1] == (-1 if pstate & 2 else 1)))
     p = c.int("p", 0, 3)
     cs = [c.int("c%d" % i, 0, 3) for i in range(k)]      # cs[0] least significant
     if k >= 2:
@@ -274,6 +277,11 @@ def jobs(tier, seed):
         for k in (1, 2, 3):
             if k == 3 and tier == "quick" and o not in ("uv", "wv", "wu"):
                 continue      # quick: depth 3 for one orientation of each class (plain / invert_j / flip_ij); thorough: all six
+            if k == 3:
+                for ps in range(4):
+                    js.append(Job("L[%s,depth=3,P=%d]" % (o, ps), "h_local", {"o": o, "k": 3, "pstate": ps},
+                                  {"query_timeout_ms": 600000, "max_paths": 20000}, weight=200))
+                continue
             js.append(Job("L[%s,depth=%d]" % (o, k), "h_local", {"o": o, "k": k}, {"query_timeout_ms": 600000, "max_paths": 20000},
                           weight=10 * 4 ** k))
         for h in ([2, 3, 8, 16, 27, 28] if tier == "quick" else range(2, 29)):
